@@ -1186,9 +1186,13 @@ class Simulation:
 
             # Get weights, calculate misfit.
             weights = self.data['weights']
-            self._misfit = np.sum(weights*(residual.conj()*residual)).real/2
+            misfit = np.sum(weights*(residual.conj()*residual)).real/2
 
-        return self._misfit.data
+            # Store the plain value, not the DataArray: it is what to_dict
+            # stores, and what comes back from a file.
+            self._misfit = misfit.data
+
+        return self._misfit
 
     def _bcompute(self):
         """Compute bfields asynchronously for all sources and frequencies."""
